@@ -20,7 +20,8 @@ ASSUMPTIONS = ["float rounding inside + - * / and math.fmod is modelled as exact
                "angles within 1e-9 (mod 2pi) of an interval end point are 'ambiguous' for the oracle (the property is tolerance-guarded)"]
 EXTRA_MODULES = ['CRProps.T16']      # translator tie: Gen.Src (regenerated from /repo every run) = hand model
 REQUIRED_BUCKETS = ["plain/contains", "plain/mul-neg", "plain/div-neg", "plain/mk-reject", "plain/intersection-none",
-                    "angle/long", "angle/int-arg", "angle/wrap", "angle/containsI", "angle/shift", "plain/arbitrary-floats"]
+                    "angle/long", "angle/int-arg", "angle/wrap", "angle/containsI", "angle/shift", "plain/arbitrary-floats",
+                    "angle/setter-then-query"]
 
 BAND = Fraction(1, 10 ** 9)
 
@@ -246,7 +247,7 @@ def gen_angle(ctx):
                       r.uniform(-6 * pi, 6 * pi), -3, 0, 2, -6])
     if r.random() < 0.5 and not (-2 * pi <= start and start + length <= 2 * pi):
         start = r.uniform(-2 * pi, 2 * pi - float(length))
-    op = r.choice(["a_contains", "a_contains", "a_contains", "a_containsI", "a_add", "a_sub", "mk_angle"])
+    op = r.choice(["a_contains", "a_contains", "a_contains", "a_containsI", "a_add", "a_sub", "mk_angle", "a_setter"])
     case = {"kind": "angle", "op": op, "s": start, "e": start + length}
     if op == "a_contains":
         ths = []
@@ -269,6 +270,11 @@ def gen_angle(ctx):
     elif op in ("a_add", "a_sub"):
         case["x"] = r.choice([0.0, 1.0, -1.0, pi, -pi, 2 * pi, 3.5, r.uniform(-6, 6), 1, -2])
         case["thetas"] = [r.uniform(-7, 7) for _ in range(6)]
+    elif op == "a_setter":
+        # query, then move one end through its property setter, then query again (a cached width must not survive)
+        case["which"] = r.choice(["start", "end"])
+        case["newlen"] = r.choice([0.0, 0.25, 1.0, pi, 4.0, 5.5, r.uniform(0, 2 * pi - 1e-6)])
+        case["thetas"] = [r.uniform(-7, 7) for _ in range(8)] + [r.randint(-6, 6)]
     elif op == "mk_angle":
         if r.random() < 0.3:
             case["s"], case["e"] = case["e"] + 0.5, case["s"]            # start > end -> rejected
@@ -387,6 +393,38 @@ def run_angle(ctx, case):
             if bool(r3[1]) != want:
                 ctx.fail("C16/AngleInterval.contains(interval)/wrong",
                          f"[{iv.start},{iv.end}].contains([{jv.start},{jv.end}]) = {r3[1]}, containment of all points gives {want}", case)
+    elif op == "a_setter":
+        for th in case["thetas"][:3]:
+            call(iv.contains, th)
+        if case["which"] == "start":
+            v = float(iv.end) - case["newlen"]
+            ok_new = -tau <= v
+        else:
+            v = float(iv.start) + case["newlen"]
+            ok_new = v <= tau
+        if not ok_new:
+            return
+        r5 = call(setattr, iv, case["which"], v)
+        if r5[0] != "ok":
+            ctx.fail(f"C16/AngleInterval.{case['which']}-setter/raises-{r5[1]}", f"[{A},{B}].{case['which']} = {v} raised {r5[2]}", case)
+            return
+        ctx.tag("angle/setter-then-query")
+        A2, B2 = frac(iv.start), frac(iv.end)
+        if (A2, B2) != ((frac(v), B) if case["which"] == "start" else (A, frac(v))):
+            ctx.fail(f"C16/AngleInterval.{case['which']}-setter/wrong-bounds", f"after {case['which']} = {v}: [{iv.start},{iv.end}]", case)
+            return
+        impl, keep = member_checks(iv, case["thetas"], A2, B2, f"contains-after-{case['which']}-setter")
+        if keep:
+            model = ctx.driver.ask("C16", "a_contains", {"tau": rat(tau), "eps": rat(eps), "a": rat(iv.start), "b": rat(iv.end),
+                                                         "thetas": [rat(t) for t in keep]})
+            ctx.compare(dict(case, thetas=keep), impl, model, "AngleInterval.contains after a setter vs CR.Iv.containsAngle on the new bounds")
+        # interval containment after the setter: the interval contains itself and every sub-arc
+        sub = call(AngleInterval, float(iv.start) + case["newlen"] / 4, float(iv.end) - case["newlen"] / 4)
+        if sub[0] == "ok" and case["newlen"] > 1e-6:
+            r6 = call(iv.contains, sub[1])
+            if r6[0] != "ok" or not r6[1]:
+                ctx.fail(f"C16/AngleInterval.contains(interval)/wrong-after-{case['which']}-setter",
+                         f"[{iv.start},{iv.end}] (after the setter) does not contain its sub-arc [{sub[1].start},{sub[1].end}]: {r6[1:]}", case)
     elif op in ("a_add", "a_sub"):
         ctx.tag("angle/shift")
         x = case["x"]
